@@ -250,7 +250,12 @@ def execute(env, sc):
         # fresh instance: its start-up port probes are logged as empty connections when Squid notices they closed
         env._run_seen = env.squid.run
         env.log_pos = 0
-        warm = client.Conn(env.port, timeout=20)
+        try:
+            warm = client.Conn(env.port, timeout=20)
+        except OSError:
+            if env.health(r):
+                r.inconclusive = "could not connect to the proxy"
+            return r
         try:
             warm.send(("GET http://127.0.0.1:%d/warm HTTP/1.1\r\nHost: x\r\nConnection: close\r\n\r\n" % env.origin.port).encode())
             warm.read_response(b"GET", timeout=20)
@@ -303,7 +308,12 @@ def execute(env, sc):
         if sc["pipeline"]:
             while not group[-1][1] and i + len(group) < len(streams):
                 group.append(streams[i + len(group)])
-        c = client.Conn(env.port, timeout=20)
+        try:
+            c = client.Conn(env.port, timeout=20)
+        except OSError:
+            if env.health(r):
+                r.inconclusive = "could not connect to the proxy"
+            return r
         try:
             c.send(b"".join(d for d, _ in group))
             for d, abort in group:
